@@ -446,7 +446,7 @@ Definition bottom : lower := {| l_fetch := fun _ => nofuel; l_mca := fun _ _ => 
 Fixpoint level (n : nat) : lower :=
   match n with
   | O => bottom
-  | S n' => {| l_fetch := fetch (level n'); l_mca := mca (level n') |}
+  | S n' => let L := level n' in {| l_fetch := fetch L; l_mca := mca L |}
   end.
 
 (* ---------------------------------------------------------------- accumulated_by *)
